@@ -63,10 +63,10 @@ func (d digestFields) header() string {
 
 // offer is one parsed challenge.
 type offer struct {
-	Scheme int // mBasic | mMD5 | mSHA256, -1 = something else
-	Raw    string
-	Realm  string
-	Nonce  string
+	Scheme             int // mBasic | mMD5 | mSHA256, -1 = something else
+	Raw                string
+	Realm              string
+	Nonce              string
 	HasRealm, HasNonce bool
 }
 
